@@ -204,7 +204,8 @@ NumVals(w) == {N(0), N(1), W(MaxW(w)), W(SignB(w))}
 UlebVals == {UlebOfNat(0), UlebOfNat(1), UlebOfNat(127), UlebOfNat(128), UlebPadded(5, 2), <<255, 255, 255, 255, 255, 255, 255, 255, 255, 1>>}
 SlebVals == {SlebOfInt(0), SlebOfInt(-1), SlebOfInt(63), SlebOfInt(64), SlebOfInt(-65), SlebPadded(-3, 2),
              <<128, 128, 128, 128, 128, 128, 128, 128, 128, 127>>}
-BlockVals == {<<>>, <<7>>, [i \in 1..300 |-> (i * 7) % 256]}
+\* 64: the one-byte ULEB128 length with bit 6 set (a signed reading makes it negative); 300: a two-byte length
+BlockVals == {<<>>, <<7>>, [i \in 1..64 |-> (i * 5) % 256], [i \in 1..300 |-> (i * 7) % 256]}
 \* abstract values per form (each is one attribute value)
 ValuesOf(form, ctx) ==
   CASE form = "DW_FORM_data16" -> {A(form, B([i \in 1..16 |-> i * 15]))}
